@@ -79,6 +79,10 @@ def configs():
     out += [
         _cfg('metrics-2ip', up_metric=10, down_metric=20, disabled_metric=30, increase=5, ips=two),
         _cfg('increase0-2ip', increase=0, ips=two, rise=1, fall=2),
+        # the ends of the 32-bit fields the lines carry (RFC 4271 5.1.4 MED, 5.1.5 LOCAL_PREF, RFC 7911 path identifier, RFC 6793 AS numbers)
+        _cfg('metric-ends', up_metric=0, down_metric=4294967295, disabled_metric=4294967294, rise=1, fall=2),
+        _cfg('metric-top-2ip', up_metric=4294967294, down_metric=4294967293, disabled_metric=0, increase=1, ips=two, rise=2, fall=1),
+        _cfg('u32-ends', local_pref=4294967295, path_id=4294967295, as_path='4294967295 65001', rise=1, fall=1),
         _cfg('community', community='65000:1 no-export'),
         _cfg('community+disabled', community='65000:1', disabled_community='65000:666 65000:667'),
         _cfg('disabled-community-only', disabled_community='65000:666', rise=1, fall=1),
